@@ -12,6 +12,7 @@ import (
 	"path/filepath"
 	"strings"
 	"sync"
+	"time"
 
 	"filippo.io/age"
 	"filippo.io/age/armor"
@@ -451,6 +452,17 @@ func cutUnits(w *strm.World, fs []strm.Frame, cut int, rng *rand.Rand) []byte {
 // and read policy must give the same plaintext and the same kind of ending; and reading must be incremental.
 func policyMatrix(run *vk.Run, id *age.X25519Identity, seed int64) {
 	rng := rand.New(rand.NewSource(seed))
+	{
+		// a paused sender: header + two chunks of a five-chunk file available, every caller buffer size
+		n := 4*65536 + 100
+		pt := make([]byte, n)
+		rng.Read(pt)
+		var buf bytes.Buffer
+		wc, _ := age.Encrypt(&buf, id.Recipient())
+		wc.Write(pt)
+		wc.Close()
+		stalledSource(run, id, buf.Bytes(), pt, n)
+	}
 	sizes := []int{0, 1, 65536, 65537, 131072}
 	if run.Thorough() {
 		sizes = append(sizes, 65535, 196608, 200001)
@@ -590,6 +602,77 @@ func readAhead(run *vk.Run, id *age.X25519Identity, file, pt []byte, n int) {
 		if err != nil {
 			return
 		}
+	}
+}
+
+// stallSrc hands out B[:avail] and then blocks until released (a pipe or socket whose sender has paused).
+type stallSrc struct {
+	b       []byte
+	pos     int
+	release chan struct{}
+	stalled chan struct{}
+	once    sync.Once
+}
+
+func (s *stallSrc) Read(p []byte) (int, error) {
+	if s.pos >= len(s.b) {
+		s.once.Do(func() { close(s.stalled) })
+		<-s.release
+		return 0, io.ErrUnexpectedEOF
+	}
+	n := copy(p, s.b[s.pos:])
+	s.pos += n
+	return n, nil
+}
+
+// stalledSource: the source has delivered the header and two whole chunks and then pauses. A streaming reader hands out
+// the first chunk whatever the size of the caller's buffer; it must not wait for input it does not need.
+func stalledSource(run *vk.Run, id *age.X25519Identity, file, pt []byte, n int) {
+	hdr := len(file) - (16 + n + ((n+strm.Chunk-1)/strm.Chunk)*16)
+	avail := hdr + 16 + 2*strm.EncChunk
+	for _, bs := range []int{4096, 65536, 100000, 262144, 1 << 20} {
+		src := &stallSrc{b: file[:avail], release: make(chan struct{}), stalled: make(chan struct{})}
+		type res struct {
+			k   int
+			err error
+			buf []byte
+		}
+		done := make(chan res, 1)
+		go func() {
+			r, err := age.Decrypt(src, id)
+			if err != nil {
+				done <- res{0, err, nil}
+				return
+			}
+			buf := make([]byte, bs)
+			k, err := r.Read(buf)
+			done <- res{k, err, buf}
+		}()
+		run.Eval(1)
+		sig := fmt.Sprintf("C12:waits-for-input-it-does-not-need:n=%d/buf=%d", n, bs)
+		rp := map[string]interface{}{"check": "C12.stall", "n": n, "buf": bs}
+		select {
+		case r := <-done:
+			close(src.release)
+			if r.err != nil || r.k <= 0 || r.k > len(pt) || !bytes.Equal(r.buf[:r.k], pt[:r.k]) {
+				run.Violation(sig, fmt.Sprintf("header and two chunks available: the first Read(%d) returned %d bytes, %v", bs, r.k, r.err), rp)
+			}
+		case <-src.stalled:
+			// the reader asked for a third chunk before handing out anything
+			select {
+			case r := <-done:
+				close(src.release)
+				_ = r
+			case <-time.After(300 * time.Millisecond):
+				close(src.release)
+				<-done
+			}
+			run.Violation(sig, fmt.Sprintf("header and two chunks were available, yet the first Read(%d) asked the source for more before returning any plaintext", bs), rp)
+		case <-time.After(20 * time.Second):
+			close(src.release)
+			run.Violation(sig, fmt.Sprintf("the first Read(%d) neither returned nor asked for input within 20 s", bs), rp)
+		}
+		run.Distinct(fmt.Sprintf("stall:%d:%d", n, bs))
 	}
 }
 
